@@ -200,6 +200,17 @@ def gen_points(rng, name, meta, scale):
             if rng.random() < 0.3:                 # only a few coordinates moved
                 x = [xi if rng.random() < 0.3 else c for xi, c in zip(x, coords)]
             pts.append(("near-optimum", x))
+    for _ in range(2 * scale):                     # tiny non-zero coordinates (powers and products underflow silently)
+        x = uni()
+        hit = False
+        for i, (lo, hi) in enumerate(box):
+            if rng.random() < 0.6:
+                t = rng.choice([1.0, -1.0]) * 10.0 ** -rng.choice([20, 31, 80, 154, 170, 200, 300, 308, 320])
+                if lo <= t <= hi:
+                    x[i] = t
+                    hit = True
+        if hit:
+            pts.append(("tiny", x))
     for _ in range(scale):                         # lattice points (cos(2 pi k) = 1, integer ridges)
         pts.append(("lattice", [clip(float(rng.randint(math.ceil(lo), math.floor(hi))), lo, hi) if math.ceil(lo) <= math.floor(hi)
                                 else rng.uniform(lo, hi) for lo, hi in box]))
